@@ -50,7 +50,7 @@ impl Property for C13 {
         }
     }
     fn rule(&self) -> &'static str {
-        "per run: machine, a seeded state installed through hooks (all registers incl. alternates, IX/IY/SP/PC/I/R/IM/IFF2, border, 128K latch incl. lock bit, every RAM byte; SP placement classes incl. screen memory and top of RAM), optionally some instructions executed, save_snapshot(SNA) through a recorder with seeded short writes or an error / write-zero at the k-th call, then load into the same emulator after more execution or into a fresh emulator of the same model in a dirty state (halted, mid prefix chain, EI pending, paging locked on another bank, other border/IM/IFF, AY programmed); distinct = (machine, paged bank, lock, receiver dirt kind, SP region, recorder fault)"
+        "per run: machine, a seeded state installed through hooks (all registers incl. alternates, IX/IY/SP/PC/I/R/IM/IFF2, border, 128K latch incl. lock bit, every RAM byte; SP placement classes incl. screen memory and top of RAM), optionally some instructions executed, save_snapshot(SNA) through a recorder with seeded short writes or an error / write-zero at the k-th call, then load into the same emulator after more execution or into a fresh emulator of the same model in a dirty state (halted, mid prefix chain, EI pending, paging locked on another bank, other border/IM/IFF, AY programmed); distinct = (machine, paged bank, lock, receiver dirt kind, SP region, recorder fault) SP classes include the 16 KiB page borders; in 1/8 of the runs the save is taken between a DD/FD prefix and its instruction (side-effect clause only)."
     }
     fn state_measure(&self) -> &'static str {
         "distinct (machine, 7FFD latch bits 0-5, receiver dirt kind) combinations round-tripped"
